@@ -112,6 +112,9 @@ def build_repo(kind="san"):
     """Compile the current /repo working tree (guard on) + harness; cached by content hash.
     kind: 'san' (ASan+UBSan) | 'plain' | 'cov' (trace-pc-guard)
     Returns dict(dir=..., corr=path of harness binary, hash=...)"""
+    if os.environ.get("VERIF_CORR_OVERRIDE") and kind in ("san", "plain"):
+        # offline measurement only (tools/coverage_report.py): an instrumented harness binary replaces the freshly built one
+        return {"dir": os.path.dirname(os.environ["VERIF_CORR_OVERRIDE"]), "corr": os.environ["VERIF_CORR_OVERRIDE"], "hash": "override"}
     harness_srcs = sorted(glob.glob(os.path.join(HARNESS, "*.c")) + glob.glob(os.path.join(HARNESS, "*.h")))
     hsh = tree_hash(harness_srcs)
     d = os.path.join(BUILD, "repo_%s_%s" % (kind, hsh))
@@ -160,6 +163,8 @@ ALLOC_MACROS = ["-Dmalloc=verif_malloc", "-Dcalloc=verif_calloc", "-Drealloc=ver
 def build_af():
     """C18 build: the library compiled with its allocator calls renamed (so that exactly libhtp's allocations can be counted,
     traced and failed) + harness/af/afail.c, ASan+UBSan+LSan. Cached by content hash like build_repo."""
+    if os.environ.get("VERIF_AF_OVERRIDE"):
+        return {"dir": os.path.dirname(os.environ["VERIF_AF_OVERRIDE"]), "afail": os.environ["VERIF_AF_OVERRIDE"], "hash": "override"}
     af_srcs = [os.path.join(HARNESS, "af", "afail.c"), os.path.join(HARNESS, "h_cfg.c"), os.path.join(HARNESS, "corr.h")]
     hsh = tree_hash(af_srcs)
     d = os.path.join(BUILD, "repo_af_%s" % hsh)
